@@ -96,9 +96,12 @@ func (f *Reduce) Call(s *slip.Scope, args slip.List, depth int) (result slip.Obj
 	}
 	if v, has := slip.GetArgsKeyValue(args, slip.Symbol(":key")); has {
 		keyFunc := ResolveToCaller(s, v, d2)
+		// The keys go into a new list, the sequence argument must not be modified.
+		keyed := make(slip.List, len(list))
 		for i, v2 := range list {
-			list[i] = keyFunc.Call(s, slip.List{v2}, d2)
+			keyed[i] = keyFunc.Call(s, slip.List{v2}, d2)
 		}
+		list = keyed
 	}
 	var hasInit bool
 	if v, has := slip.GetArgsKeyValue(args, slip.Symbol(":initial-value")); has {
